@@ -5,9 +5,9 @@ package ctlog
 import (
 	"bytes"
 	"context"
-	"crypto/sha256"
 	"crypto/ecdsa"
 	"crypto/elliptic"
+	"crypto/sha256"
 	"fmt"
 	"io"
 	"log/slog"
@@ -92,11 +92,11 @@ type simWaiter struct {
 // reference model of what has been committed and acknowledged.
 type simSys struct {
 	admittedBeforeIssuer int
-	t    simFataler
-	w    *simWorld
-	key  *ecdsa.PrivateKey
-	wkey *mldsa.PrivateKey
-	pool int // Config.PoolSize
+	t                    simFataler
+	w                    *simWorld
+	key                  *ecdsa.PrivateKey
+	wkey                 *mldsa.PrivateKey
+	pool                 int // Config.PoolSize
 
 	procs map[int]*simProc
 
@@ -113,7 +113,7 @@ type simSys struct {
 	auditOnPublish bool // full storage audit at the instant every checkpoint becomes publicly readable (C04)
 	audits         int
 	onAck          func(a simAck) // called at the instant an acknowledgement is observed
-	logf        func(string, ...any)
+	logf           func(string, ...any)
 }
 
 func newSimSys(t simFataler, dir string) *simSys {
@@ -377,15 +377,15 @@ func (s *simSys) submit(ctx context.Context, in *simInst, e *simEntry, low bool)
 }
 
 type simRoundResult struct {
-	Err      error
-	Crashed  bool
-	Fired    []string
-	Acks     []simAck
-	Failed   int // waiters that got an error
+	Err           error
+	Crashed       bool
+	Fired         []string
+	Acks          []simAck
+	Failed        int         // waiters that got an error
 	FailedEntries []*simEntry // their entries (a client typically submits them again)
-	Pool     *pool
-	PoolSize int
-	Ops      []simOp
+	Pool          *pool
+	PoolSize      int
+	Ops           []simOp
 }
 
 // poll resolves every waiter whose pool has been released (or whose answer
